@@ -80,7 +80,8 @@ def case(ctx, i, rng, curved=None):
     if curved:
         cell, gdim = rng.choice([("interval", 1), ("triangle", 2), ("triangle", 2), ("tetrahedron", 3)])
     U = Universe(rng, cell, gdim, "cell", cplx, coord_degree=2 if curved else 1)
-    kind = rng.choice(["variable", "variable", "nested", "second", "coefficient", "mixed-second", "coef-and-variable", "twin-variables", "variable-of-x"])
+    kind = rng.choice(["variable", "variable", "nested", "second", "coefficient", "mixed-second", "coef-and-variable", "twin-variables", "variable-of-x", "variable-of-variable"])
+    e_def_override = None
     mk = lambda **kw: Gen(U, rng, cplx=cplx, deriv=rng.choice([0, 1]), cond=rng.random() < 0.3, math=rng.random() < 0.8, geom=rng.random() < 0.4, **kw)
     try:
         G1 = mk()
@@ -118,6 +119,25 @@ def case(ctx, i, rng, curved=None):
                 e = ufl.diff(ufl.diff(f, v1), v2)
             else:
                 e = ufl.diff(ufl.diff(f, v2), v1) - ufl.diff(ufl.diff(f, v1), v1)
+        elif kind == "variable-of-variable":
+            # v2 = variable(v1) is a NEW variable that happens to wrap a variable: f = g(v1) + h(v2); the partial derivative
+            # with respect to v2 holds the g part fixed, so it must equal the derivative of the h part alone (g never
+            # contains v2 by construction)
+            v2 = ufl.variable(v1)
+            vs = [v1, v2]
+            Ga, Gb = mk(), mk()
+            Ga.extra, Ga.extra_prob = [v1], 0.8
+            Gb.extra, Gb.extra_prob = [v2], 0.8
+            g_part = Ga.expr(fshape, rng.choice([1, 2]))
+            if not contains_label(g_part, v1.ufl_operands[1]):
+                g_part = g_part + (v1[tuple(rng.randrange(d) for d in v1.ufl_shape)] if v1.ufl_shape else v1) ** 2 * ufl.as_ufl(1.0)
+                if fshape:
+                    raise ValueError("no v1 in the g part")
+            h_part = Gb.expr(fshape, rng.choice([1, 2]))
+            f = g_part + h_part
+            target = v2
+            e = ufl.diff(f, v2)
+            e_def_override = ufl.classes.VariableDerivative(h_part, v2)
         elif kind == "variable-of-x":
             # the variable wraps the spatial coordinate; f also depends on position in other ways (raw x, coefficients)
             X = ufl.variable(U.x)
@@ -176,6 +196,8 @@ def case(ctx, i, rng, curved=None):
             e_def = ufl.classes.VariableDerivative(f, target)
         except Exception:
             e_def = e
+    if e_def_override is not None:
+        e_def = e_def_override
     verdict, out = check_pass(ctx, "C04", "expand_derivatives", e_def, lambda _x: expand_derivatives(e), worlds, extra_key="/" + kind + ("/non-affine" if curved else ""), localise=e_def is e)
     if curved:
         ctx.count("curved_" + verdict.replace("-", "_"))
